@@ -49,6 +49,8 @@ def gen_cases(rng, tier):
     cases += [gen_xpkg_case(rng) for _ in range(16 if tier == 'quick' else 120)]
     nh = (24, 16) if tier == 'quick' else (300, 100)
     cases += [C03.gen_vleh_case(rng, 'stub') for _ in range(nh[0])] + [C03.gen_vleh_case(rng, 'real') for _ in range(nh[1])]
+    if os.environ.get('VERIF_PENDING'):
+        cases += PENDING      # witnesses of defects whose fix (pending_fixes/) is not in /repo yet
     cases += [gen_iter_case(rng, 2) for _ in range(n_k)]
     cases += [gen_iter_case(rng, rng.choice([1, 3, 4])) for _ in range(n_k)]
     return cases
@@ -68,6 +70,18 @@ def gen_xpkg_case(rng):
     for st in steps:
         st['T'] = rng.choice([345., 355., 360., 350.]); st['P'] = rng.choice([101325., 101325., 80000.])
     return {'kind': 'xpkg', 'steps': steps}
+
+# Stream.link_with(other, TP=True) (the default) replaces the stream's thermal condition but keeps the equilibrium caches that
+# were built with the old one: a later vle(T=, P=) writes the specified T and P to the orphaned object (pending_fixes/C04_4)
+PENDING = [
+    {'kind': 'vleh', 'mode': 'real', 'phases': 'lg', 'l': [30., 10., 0., 0., 0., 0., 0.], 'g': [0.] * 7, 's': [0.] * 7, 'T0': 300., 'P0': 101325.,
+     'co': None, 'draws': [0.5], 'spec': {}, 'sk': 'TP',
+     'ops': [['vle', 'TP', {'T': 360., 'P': 101325.}], ['link', [10., 30., 0., 0., 0., 0., 0.], [0.] * 7, 310., 90000., True],
+             ['vle', 'TP', {'T': 365., 'P': 101325.}]]},
+    {'kind': 'vleh', 'mode': 'real', 'phases': 'lg', 'l': [0.] * 7, 'g': [0.] * 7, 's': [0.] * 7, 'T0': 300., 'P0': 101325.,
+     'co': None, 'draws': [0.5], 'spec': {}, 'sk': 'PV',
+     'ops': [['link', [10., 30., 5., 0., 0., 0., 0.], [0.] * 7, 310., 90000., True], ['vle', 'PV', {'P': 101325., 'V': 0.5}]]},
+]
 
 def xpkg_env():
     e = C03.env()
@@ -378,7 +392,10 @@ def oracle(case):
             lo = _flash(case, {'T': s.T, 'P': s.P + 1.}); hi = _flash(case, {'T': s.T, 'P': s.P - 1.})
             vals = [getattr(x, prop) for x in (lo, hi) if x is not None]
             if len(vals) < 2 or not (min(vals) - 1e-6 * abs(want) <= want <= max(vals) + 1e-6 * abs(want)):
-                return (f'vle({sk}): specified {prop}={want} but the stream has {prop}={got} (T={s.T}, P={s.P}); the equilibrium values at P-1 Pa / P+1 Pa '
+                # a stream that is itself an equilibrium state at its (T, P) but at the wrong root: the pressure search stopped early
+                self_consistent = len(vals) == 2 and min(vals) - 1e-6 * abs(got) <= got <= max(vals) + 1e-6 * abs(got)
+                head = f'vle({sk}) pressure search stopped off the root' if self_consistent else f'vle({sk})'
+                return (f'{head}: specified {prop}={want} but the stream has {prop}={got} (T={s.T}, P={s.P}); the equilibrium values at P-1 Pa / P+1 Pa '
                         f'({vals}) do not bracket the specification')
     if sk == 'PS' and has_volatile and small_inerts and abs(s.S - spec['S']) > 1e-3 * max(1., abs(spec['S'])) + 1e-5 * abs(s.F_mass):
         return f'vle(PS): specified S={spec["S"]} but the stream has S={s.S} (T={s.T}, P={s.P})'
@@ -441,3 +458,13 @@ CORPUS = [
     _w('Px', {'P': 50000., 'x': [0.8, 0.2]}, [30., 10., 0, 0, 0, 0, 0], [0.] * 7),
     _w('TH', {'T': 350., 'H': ['frac', 0.5]}, [30., 0, 0, 0, 0, 0, 0], [0.] * 7),
 ]
+
+# witnesses of defects of the unchanged tree (see the report): active once listed in known_findings.txt, or with VERIF_PENDING=1
+import vf as _vf
+_ALL_WITNESSES = [
+    {'key': 'C04:vle(TS) pressure search stopped off the root',
+     'case': {'kind': 'vle', 'mode': 'real', 'phases': 'lg', 'l': [12.5, 4.0, 8.0, 0., 0., 0., 0.], 'g': [0.25, 3.0, 0., 0., 0., 0., 0.], 's': [0.] * 7,
+              'spec': {'T': 350.5, 'S': ['frac', 0.5]}, 'sk': 'TS', 'T0': 298.15, 'P0': 101325., 'co': None, 'draws': []}},
+    {'key': 'C04:vle(TP) call 2 of a history', 'case': PENDING[0]},
+]
+WITNESSES = [w for w in _ALL_WITNESSES if (ID, w['key']) in _vf.load_known() or os.environ.get('VERIF_PENDING')]
